@@ -2,6 +2,8 @@
 // It exists only in the instrumented scratch copy of the repository.
 package zzct
 
+import "reflect"
+
 // Event kinds folded into the trace: block id, short-circuit operand id,
 // (index id, value), (vartime compare id, position of first difference).
 type Event struct {
@@ -76,7 +78,16 @@ func I[T any](id uint32, v T) T {
 		case uintptr:
 			iv = int64(x)
 		default:
-			ok = false // map key of non-integer type: not a memory index
+			// a DEFINED integer type (type flags uint8, type digit int8, ...) does not
+			// match the predeclared types above but indexes memory all the same
+			switch rv := reflect.ValueOf(v); rv.Kind() {
+			case reflect.Int, reflect.Int8, reflect.Int16, reflect.Int32, reflect.Int64:
+				iv = rv.Int()
+			case reflect.Uint, reflect.Uint8, reflect.Uint16, reflect.Uint32, reflect.Uint64, reflect.Uintptr:
+				iv = int64(rv.Uint())
+			default:
+				ok = false // map key of non-integer type: not a memory index
+			}
 		}
 		if ok {
 			mix(id, uint64(iv)+1)
